@@ -7,9 +7,44 @@ From SV Require Import Base.Base IR.State IR.NS IR.Ops Xform.Clone Proofs.AssocX
   Proofs.CloneMemoK Proofs.CloneFaithK Proofs.CloneStage Proofs.CloneStageP.
 Import ListNotations RecordSetNotations.
 
+Lemma inv1ar_extend s s' r :
+  Inv1aR s r -> Above s -> ParLt s -> kpframe (next s) s s' -> Frag (next s) (next s') s' -> Above s' -> next s <= next s' -> Inv1aR s' r.
+Proof.
+  intros [H1 H2] Ab Pl Hf [G1 G2 G3 G4] Ab' Hn. split.
+  - intros p x. destruct (Nat.lt_ge_cases p (next s)) as [Hp|Hp].
+    + destruct (Hf r p Hp) as [Ek _]. rewrite Ek. destruct (Nat.lt_ge_cases x (next s)) as [Hx|Hx].
+      * destruct (Hf r x Hx) as [_ Ep]. rewrite Ep. apply H1.
+      * split.
+        -- intro Hin. apply H1 in Hin. rewrite (proj2 (Ab r x Hx)) in Hin. discriminate.
+        -- intro Hpar. exfalso. destruct (Nat.lt_ge_cases x (next s')) as [Hx'|Hx'].
+           ++ apply (G4 r x p) in Hpar; lia.
+           ++ rewrite (proj2 (Ab' r x Hx')) in Hpar. discriminate.
+    + destruct (Nat.lt_ge_cases p (next s')) as [Hp'|Hp']; [apply G1; lia|].
+      rewrite (proj1 (Ab' r p Hp')). split; [intros []|]. intro Hpar. exfalso.
+      destruct (Nat.lt_ge_cases x (next s)) as [Hx|Hx].
+      * destruct (Hf r x Hx) as [_ Ep]. rewrite Ep in Hpar. apply Pl in Hpar. lia.
+      * destruct (Nat.lt_ge_cases x (next s')) as [Hx'|Hx'].
+        -- apply (G4 r x p) in Hpar; lia.
+        -- rewrite (proj2 (Ab' r x Hx')) in Hpar. discriminate.
+  - intros p. destruct (Nat.lt_ge_cases p (next s)) as [Hp|Hp].
+    + destruct (Hf r p Hp) as [-> _]. apply H2.
+    + destruct (Nat.lt_ge_cases p (next s')) as [Hp'|Hp']; [apply G2; lia|]. rewrite (proj1 (Ab' r p Hp')). constructor.
+Qed.
+
+Lemma inv1ar_same s s' r : kids s' = kids s -> par s' = par s -> Inv1aR s r -> Inv1aR s' r.
+Proof. intros Hk Hp [H1 H2]. split; rewrite Hk; [rewrite Hp|]; auto. Qed.
+
+Lemma kl_of_inv1a s : Inv1a s -> Above s -> forall r p c, In c (kids s r p) -> c < next s /\ p < next s.
+Proof.
+  intros I Ab r p c Hc. split.
+  - apply (i1_kids _ I) in Hc. destruct (Nat.lt_ge_cases c (next s)) as [H|H]; [exact H|]. rewrite (proj2 (Ab r c H)) in Hc. discriminate.
+  - destruct (Nat.lt_ge_cases p (next s)) as [H|H]; [exact H|]. rewrite (proj1 (Ab r p H)) in Hc. destruct Hc.
+Qed.
+
 Record RI (s0 s : state) (m : memo) : Prop := mkRI {
   ri_st : ST s0 s m;
-  ri_1a : Inv1a s;
+  ri_1a : forall r, r <> RLibs -> Inv1aR s r;
+  ri_kl : forall r p c, In c (kids s r p) -> c < next s /\ p < next s;
   ri_t : InvT s;
   ri_p : InvP s;
   ri_k : InvK s;
@@ -26,7 +61,8 @@ Lemma ri_start s0 : UF s0 -> RI s0 s0 [].
 Proof.
   intros [I [T [F [FT0 K]]]]. pose proof (above_of_fresh s0 F) as Ab. constructor; auto.
   - apply st_start; assumption.
-  - apply (inv_a _ I).
+  - intros r _. apply inv1a_R. apply (inv_a _ I).
+  - apply (kl_of_inv1a s0 (inv_a _ I) Ab).
   - apply (inv_p _ I).
   - apply (inv_k _ I).
   - apply (parlt_of_inv1a s0 (inv_a _ I) Ab).
@@ -71,10 +107,14 @@ Section DefStage.
     { intros x Hx. rewrite (st_kids _ _ _ ST0 RChildren d Hd) in Hx. pose proof (src_lt s0 I1 F0 _ _ _ Hx). lia. }
     destruct (def_clone1_ref s m d G m' d' Ab Pl Hds Hchs E) as [_ [_ [Hdr _]]].
     assert (STG : ST s0 G m') by (apply (st_of_stage s0 s G m m' _ ST0 SO); lia).
-    assert (I1G : Inv1a G) by (apply (inv1a_extend s G (ri_1a _ _ _ R) Ab Hf Hg AbG); lia).
+    assert (I1G : forall r, r <> RLibs -> Inv1aR G r) by (intros r Hr; apply (inv1ar_extend s G r (ri_1a _ _ _ R r Hr) Ab Pl Hf Hg AbG); lia).
     assert (Hlt : forall r p c, In c (kids s r p) -> c < next s).
-    { intros r p c Hc. apply (i1_kids _ (ri_1a _ _ _ R)) in Hc. destruct (Nat.lt_ge_cases c (next s)) as [H|H]; [exact H|].
-      rewrite (proj2 (Ab r c H)) in Hc. discriminate. }
+    { intros r p c Hc. apply (ri_kl _ _ _ R r p c Hc). }
+    assert (KLG : forall r p c, In c (kids G r p) -> c < next G /\ p < next G).
+    { intros r p c Hc. destruct (Nat.lt_ge_cases p (next s)) as [Hp|Hp].
+      - destruct (Hf r p Hp) as [Ek _]. rewrite Ek in Hc. destruct (ri_kl _ _ _ R r p c Hc). split; lia.
+      - destruct (Nat.lt_ge_cases p (next G)) as [Hp1|Hp1]; [|rewrite (proj1 (AbG r p Hp1)) in Hc; destruct Hc].
+        pose proof (fg_kin _ _ _ Hg r p c (conj Hp Hp1) Hc). split; lia. }
     assert (TG : InvT G).
     { intros r p c Hc. destruct (Nat.lt_ge_cases p (next s)) as [Hp|Hp].
       - destruct (Hf r p Hp) as [Ek _]. rewrite Ek in Hc. rewrite !Km by (try exact Hp; apply (Hlt r p c Hc)). apply (ri_t _ _ _ R). exact Hc.
@@ -138,14 +178,12 @@ Proof.
   destruct (above_alloc s K s1 x' (ri_ab _ _ _ R) (ri_pl _ _ _ R) Ea) as [Ab1 Pl1].
   pose proof (rd_clone_alloc s K) as [_ Rd]. rewrite Ea in Rd. cbn [fst] in Rd.
   assert (Hlt : forall r p c, In c (kids s r p) -> c < next s /\ p < next s).
-  { intros r p c Hc. split.
-    - apply (i1_kids _ (ri_1a _ _ _ R)) in Hc. destruct (Nat.lt_ge_cases c (next s)) as [H|H]; [exact H|].
-      rewrite (proj2 (ri_ab _ _ _ R r c H)) in Hc. discriminate.
-    - destruct (Nat.lt_ge_cases p (next s)) as [H|H]; [exact H|]. rewrite (proj1 (ri_ab _ _ _ R r p H)) in Hc. destruct Hc. }
+  { intros r p c Hc. apply (ri_kl _ _ _ R r p c Hc). }
   split; [|repeat split; try assumption; try (cbn; congruence)].
   - constructor.
     + exact STn.
-    + apply (inv1a_cont s); [split; [exact Kk1|exact Pp1]|apply (ri_1a _ _ _ R)].
+    + intros r Hr. apply (inv1ar_same s _ r); [exact Kk1|exact Pp1|apply (ri_1a _ _ _ R r Hr)].
+    + intros r p c Hc. cbn in Hc. rewrite Kk1 in Hc. destruct (Hlt r p c Hc). cbn. lia.
     + intros r p c Hc. cbn in Hc. rewrite Kk1 in Hc. destruct (Hlt r p c Hc) as [Hc1 Hp1]. cbn. rewrite Kd1. unfold upd.
       replace (Nat.eqb c (next s)) with false by (symmetry; apply Nat.eqb_neq; lia).
       replace (Nat.eqb p (next s)) with false by (symmetry; apply Nat.eqb_neq; lia). apply (ri_t _ _ _ R). exact Hc.
